@@ -454,6 +454,9 @@ def finish(ctx: Ctx, info: BuildInfo | None, *, level: str = "proof", checker_cm
         path = write_replay(prop, payload)
         lines.append(f"VIOLATION property={prop} replay={path.relative_to(VERIF)} no-failing-input-found")
     wall = ctx.elapsed()
+    if os.environ.get("VERIF_REPO") and os.environ.get("VERIF_REPO") != "/repo":
+        # a run against a scratch tree (seed confirmation, fix testing) never touches the evidence of /repo
+        write_evidence = False
     if write_evidence:
         cov = {
             "evaluations": ctx.evaluations,
